@@ -4,6 +4,7 @@
 -/
 import LyonVerif.Drive.Common
 import LyonVerif.Model.Geom.Flatten
+import LyonVerif.Model.Geom.FlattenCert
 
 namespace Lyon.Drive.C09
 open Lyon Lyon.Drive
@@ -22,6 +23,9 @@ def fTs (l : List α) : String :=
   if l.length ≥ fuelMax then "fuel" else unwords (toString l.length :: l.map fx)
 def fQuad (q : Quad α) : String := fp q.a ++ " " ++ fp q.c ++ " " ++ fp q.b
 
+def fCert (r : Bool × α) : String :=
+  unwords [fb r.1, fx r.2, fb (decide (r.2 ≤ Scalar.one)), fb (decide (r.2 ≤ Scalar.ofSci 121 2))]
+
 def quad (v : Array String) : String :=
   let q : Quad α := ⟨rdP v 0, rdP v 2, rdP v 4⟩
   let tol : α := rd v 6
@@ -34,7 +38,9 @@ def quad (v : Array String) : String :=
       "cb", fSegs l,
       "tr", fSegsT l,
       "it", fPts ((QuadIter.new q tol).collect fuelMax),
-      "itt", fTs ((QuadTIter.new q tol).collect fuelMax) ]
+      "itt", fTs ((QuadTIter.new q tol).collect fuelMax),
+      -- per-input tolerance certificate (theorem quad_flat_within_tolerance_of_certificate)
+      "cert", fCert (q.flatCert tol l) ]
 
 def cubic (v : Array String) : String :=
   let c : Cubic α := ⟨rdP v 0, rdP v 2, rdP v 4, rdP v 6⟩
@@ -49,7 +55,9 @@ def cubic (v : Array String) : String :=
       "cbt", fSegsT lt,
       "cb", fSegs l,
       "tr", fSegsT lt,
-      "it", fPts (it.collect fuelMax) ]
+      "it", fPts (it.collect fuelMax),
+      -- per-input tolerance certificate (theorem cubic_flat_within_tolerance_of_certificate)
+      "qcert", fCert ((c.flatCert tol).getD (false, Scalar.zero)) ]
   | _, _, _ => "panic"
 
 def arcFuel : Nat := 100000
